@@ -157,3 +157,40 @@ Proof.
   assert (E : Z.eqb z (Z.of_nat (length items)) = false) by (apply Z.eqb_neq; lia).
   now rewrite E.
 Qed.
+
+(* ---- a step below a scalar is refused ------------------------------------------------------------------ *)
+Lemma find_key_below_scalar rl f root x rest par s fstr name ix :
+  split_name_index x = Ok (name, ix) -> name <> [] -> pstr_eqb name s_dotdot = false ->
+  find true rl (S f) root (x :: rest) par (Leaf s) fstr = Raise ExIndex.
+Proof.
+  intros Hs Hne Hdd. cbn [find]. rewrite Hs. cbn [bind].
+  destruct name as [|n0 n1]; [congruence|]. cbn [nonempty negb andb]. now rewrite Hdd.
+Qed.
+
+Theorem setitem_refuses_below_scalar fuel root x v toks p s y rest name ix :
+  has_path_char x = true -> tokenize x = toks ++ y :: rest ->
+  walk root toks p (Leaf s) ->
+  split_name_index y = Ok (name, ix) -> name <> [] -> pstr_eqb name s_dotdot = false ->
+  2 * length toks + 1 <= fuel ->
+  setitem_core fuel root x v = Raise ExIndex.
+Proof.
+  intros Hc Ht Hw Hs Hne Hdd Hf. unfold setitem_core. rewrite Hc, Ht.
+  destruct (find_walk_prefix true root toks p (Leaf s) Hw (y :: rest) ltac:(congruence) fuel root [] s_root ltac:(lia))
+    as [fstr' [fuel' [H1 [H2 H3]]]].
+  rewrite H3. destruct fuel' as [|f']; [lia|].
+  now rewrite (find_key_below_scalar true f' root y rest _ s fstr' name ix Hs Hne Hdd).
+Qed.
+
+Theorem lookup_below_scalar_is_miss fuel root x re rl dflt toks p s y rest name ix :
+  has_path_char x = true -> tokenize x = toks ++ y :: rest ->
+  walk root toks p (Leaf s) ->
+  split_name_index y = Ok (name, ix) -> name <> [] -> pstr_eqb name s_dotdot = false ->
+  2 * length toks + 1 <= fuel ->
+  dict_get_core fuel root x re rl dflt = Ok (root, if re then LRaise ExIndex else dflt).
+Proof.
+  intros Hc Ht Hw Hs Hne Hdd Hf. unfold dict_get_core. rewrite Hc, Ht.
+  destruct (find_walk_prefix rl root toks p (Leaf s) Hw (y :: rest) ltac:(congruence) fuel root [] s_root ltac:(lia))
+    as [fstr' [fuel' [H1 [H2 H3]]]].
+  rewrite H3. destruct fuel' as [|f']; [lia|].
+  rewrite (find_key_below_scalar rl f' root y rest _ s fstr' name ix Hs Hne Hdd). reflexivity.
+Qed.
